@@ -168,6 +168,8 @@ def rows : List Row := [
   ⟨0xf8e494ae36aec117, "range|pkg/basm/cluster.go|(*BasmInstance).Assembler2Cluster|l2.LoopMeta()|2", ["concat"], .finding "C07-basm-cluster-meta-order"⟩,
   ⟨0x4f0ae0ee82b2d2de, "range|pkg/basm/cluster.go|(*BasmInstance).Assembler2Cluster|l2.LoopMeta()|3", ["concat"], .finding "C07-basm-cluster-meta-order"⟩,
   ⟨0x4a3c2319f40afb64, "range|pkg/basm/cluster.go|(*BasmInstance).Assembler2Cluster|l2.LoopMeta()|4", ["accum", "append", "calls", "concat"], .finding "C07-basm-cluster-meta-order"⟩,
+  ⟨0xa1599e043af9ce55, "range|pkg/basm/cluster.go|sortedMetaKeys|m|0", ["append", "sorted"], .sortedAfter⟩,
+  ⟨0x3daf211f61a02be3, "range|pkg/basm/cluster.go|sortedNameKeys|m|0", ["append", "sorted"], .sortedAfter⟩,
   ⟨0xc8226c67df4c85f1, "range|pkg/basm/clusterchecker.go|clusterChecker|bi.clusteredNames|0", ["early"], .thm .membership⟩,
   ⟨0xcb0450a6be7a620b, "range|pkg/basm/clusterchecker.go|clusterChecker|bi.clusteredNames|1", ["keyed"], .thm .setInsert⟩,
   ⟨0xd7db3f56fd6248a4, "range|pkg/basm/clusterchecker.go|clusterChecker|bi.clusteredNames|2", ["accum", "append", "early"], .insens "existence test: device ids are unique values (enforced a few lines above), at most one entry matches, the body does not use the entry"⟩,
